@@ -109,8 +109,8 @@ FuncOps ==      \* function.c Functions[] + the built-ins of asmpars.c; argument
     R("COSH", "fn", 1, 1, "none"), R("TANH", "fn", 1, 1, "none"), R("COTH", "fn", 1, 1, "none"),
     R("LN", "fn", 1, 1, "none"), R("LOG", "fn", 1, 1, "none"), R("LD", "fn", 1, 1, "none"),
     R("ASINH", "fn", 1, 1, "none"), R("ACOSH", "fn", 1, 1, "none"), R("ATANH", "fn", 1, 1, "none"),
-    R("ACOTH", "fn", 1, 1, "none"), R("DEFINED", "fn", 0, AMAX, "none"), R("SYMTYPE", "fn", 0, AMAX, "none"),
-    R("ASSUMEDVAL", "fn", 0, AMAX, "none") }    \* the last three take the whole argument text as a symbol name
+    R("ACOTH", "fn", 1, 1, "none"), R("DEFINED", "fn", 0, 100000, "none"), R("SYMTYPE", "fn", 0, 100000, "none"),
+    R("ASSUMEDVAL", "fn", 0, 100000, "none") }    \* the last three take the whole argument text as a symbol name
 
 BinOps ==       \* operator.c Operators[]: the varied argument is an operand
   { R("B+", "bo", 2, 2, "none"), R("B-", "bo", 2, 2, "none"), R("B*", "bo", 2, 2, "none"),
@@ -170,7 +170,12 @@ PopKind(m, K) == [m EXCEPT !.open = RemoveAt(@, LastIdx(m, K))]
 IsMacroStart(s) == s.op \in {"MACRO", "IRP", "IRPN", "IRPC", "REPT", "WHILE"}
 IsMacroEnd(s)   == s.op \in {"ENDM", "ENDR"}
 
-ArgcBad(s) == LET o == Op(s.op) IN s.argc < o.lo \/ s.argc > o.hi
+\* function arguments and the operands of a binary operator form ONE statement argument (the renderer joins
+\* them inside an EVAL); the "arguments" of a unary operator are separated by real commas
+OneArgument(s) == Op(s.op).g = "fn" \/ (Op(s.op).g = "bo" /\ s.op \notin {"U-", "U~", "U~~"})
+\* SplitLine: a single empty argument is no argument at all (`<tab>aseg<tab>`)
+EffArgc(s) == IF s.argc = 1 /\ s.pos \in {1, 99} /\ s.cls = "empty" THEN 0 ELSE s.argc
+ArgcBad(s) == LET o == Op(s.op) IN EffArgc(s) < o.lo \/ EffArgc(s) > o.hi
 
 (* ---------------------------------------------------------------------- *)
 (* Outcomes: the set of states one statement may lead to                   *)
@@ -254,7 +259,7 @@ IfStep(m, s) ==
 
 \* 4. MACRO / EXITM / SHIFT / INCLUDE
 ReadMacro(m, s) ==   \* a definition error still opens a (discarding) recorder
-  IF ~m.ifasm THEN {OpenRec(m, "wait", 0)}
+  IF ~m.ifasm THEN {OpenRec(m, "wait", 0), OpenRec(Err(m), "wait", 0)}    \* the macro name is checked even when skipping
   ELSE {OpenRec(m, "macro", 0), OpenRec(Err(m), "wait", 0)}
 MacCtl(m, s) ==      \* argument count and "outside macro" are diagnosed even in a skipped branch
   IF ArgcBad(s) \/ m.inmac = 0 THEN {Err(m)}
@@ -269,7 +274,8 @@ OpenerKind(e)  == CASE e = "st+" -> "st" [] e = "se+" -> "se" [] e = "ph+" -> "p
                     [] e = "sv+" -> "sv" [] e = "ex+" -> "ex" [] OTHER -> "none"
 Pseudo(m, s) ==
   LET o == Op(s.op) IN
-  IF ArgcBad(s) /\ o.g \in {"ps", "da", "fn"} THEN {Err(m)}               \* ChkArgCnt: error, nothing else
+  IF ArgcBad(s) /\ (o.g \in {"ps", "da"} \/ (o.g = "fn" /\ EffArgc(s) > 0))   \* ChkArgCnt: error, nothing else
+  THEN {Err(m)}                                       \* (`tan()` is silently accepted: deviation of the code)
   ELSE CASE o.e = "ph-" /\ ~HasOpen(m, {"ph"}) -> {m}      \* deviation of the code: DEPHASE without PHASE is silently accepted
          [] CloserKinds(o.e) # {} -> IF ~HasOpen(m, CloserKinds(o.e)) THEN {Err(m)}          \* closer without opener
                                      ELSE {PopKind(m, CloserKinds(o.e)), Err(m)}
@@ -304,7 +310,8 @@ Dispatch(m, s) ==
 Outcomes(m, s) ==
   IF m.fatal \/ m.ended \/ m.exited THEN {m}      \* nothing is processed after FATAL / END / (in this expansion) EXITM
   ELSE LET t == Tick(m) IN
-       IF s.argc > AMAX THEN Dispatch(Err(t), [s EXCEPT !.argc = AMAX])     \* TooManyArgs, list truncated
+       IF s.argc > AMAX /\ ~OneArgument(s)                                 \* (operands of an expression are one argument)
+       THEN Dispatch(Err(t), [s EXCEPT !.argc = AMAX])                      \* TooManyArgs, list truncated
        ELSE Dispatch(t, s)
 
 RunSeq(S, q) == IF q = <<>> THEN S ELSE RunSeq(UNION {Outcomes(x, Head(q)) : x \in S}, Tail(q))
